@@ -19,8 +19,10 @@ Modelled kinds of definitions: variables without dependencies (`DataVariable`, `
 (its dependencies = the parameter names of its function), individual / population latent variables with a prior of
 parameters `(mean, std)`.  `ModelParameter` (no dependency of its own; the dedicated sufficient-statistic variables of its `Collect` are added through the
 same `update` as the companions of a latent variable).  NOT modelled: the mixture prior's special case for `sources`
-(same names, other functions).  Import-free.
+(same names, other functions).  Imports only `Model/Dag.lean` (itself import-free).
 -/
+import LeaspyVerif.Model.Dag
+
 namespace LeaspyVerif.Specs
 
 inductive Def where
@@ -116,5 +118,32 @@ def keys (c : Coll) : List String := c.entries.map (·.1) ++ automaticNames
 
 /-- what `VariablesDAG.from_dict(nv)` reads: every key with its direct ancestors -/
 def definitions (c : Coll) : List (String × List String) := c.entries ++ autoDefs c
+
+/-! ### from the definitions to the graph construction (`VariablesDAG.from_dict` → `__post_init__`)
+
+`compute_topological_order_and_path_matrix` starts with `nodes = sorted(direct_ancestors.keys())` and works on the ranks;
+`Model/Dag.lean` starts from the ranks.  `graphOf` is that first step: a name's rank is its position in the sorted list of
+names, a dependency that is not a key gets the rank `n` (an unknown node for `Dag.build`). -/
+
+def rankedNames (defs : List (String × List String)) : List String := sortNames (defs.map (·.1))
+
+def graphOf (defs : List (String × List String)) : Dag.Graph :=
+  let names := rankedNames defs
+  { n := names.length
+    anc := fun m =>
+      match names[m]? with
+      | none => []
+      | some nm =>
+        match defs.find? (fun e => e.1 == nm) with
+        | some e => e.2.map (fun a => names.idxOf a)
+        | none => [] }
+
+/-- `VariablesDAG.from_dict(nv)`: refusal class, or the variables in graph order, by name -/
+def fromDict (c : Coll) : Except Dag.Err (List String) :=
+  let defs := definitions c
+  let names := rankedNames defs
+  match Dag.build (graphOf defs) with
+  | .error e => .error e
+  | .ok r => .ok (r.order.map (fun i => names.getD i ""))
 
 end LeaspyVerif.Specs
